@@ -7,6 +7,7 @@
 extern size_t __sanitizer_get_current_allocated_bytes(void);  /* libasan */
 #include "types.h"
 #include "array.h"
+#include "values.h"
 
 #define NH 8
 static MPT_STRUCT(slice) H[NH];
@@ -19,7 +20,7 @@ static const MPT_STRUCT(type_traits) tr_p1 = MPT_TYPETRAIT_INIT(1);
 static const MPT_STRUCT(type_traits) tr_p4 = MPT_TYPETRAIT_INIT(4);
 static const MPT_STRUCT(type_traits) tr_p24 = MPT_TYPETRAIT_INIT(24);
 static const MPT_STRUCT(type_traits) tr_z = MPT_TYPETRAIT_INIT(0);
-static const MPT_STRUCT(type_traits) *tr_c;
+static const MPT_STRUCT(type_traits) *tr_c, *tr_d;
 
 #ifdef DRV_ELEM
 #define MAXTOK 4096
@@ -114,6 +115,7 @@ static const MPT_STRUCT(type_traits) *traits_by_name(const char *s, int *ok)
 	if (!strcmp(s, "p24")) return &tr_p24;
 	if (!strcmp(s, "z")) return &tr_z;
 	if (!strcmp(s, "c")) return tr_c;
+	if (!strcmp(s, "d")) return tr_d;
 #ifdef DRV_ELEM
 	if (!strcmp(s, "m4")) return &tr_m4;
 	if (!strcmp(s, "m8")) return &tr_m8;
@@ -131,6 +133,7 @@ static const char *traits_name(const MPT_STRUCT(type_traits) *t)
 	if (t == &tr_p24) return "p24";
 	if (t == &tr_z) return "z";
 	if (t == tr_c) return "c";
+	if (t == tr_d) return "d";
 #ifdef DRV_ELEM
 	if (t == &tr_m4) return "m4";
 	if (t == &tr_m8) return "m8";
@@ -343,6 +346,7 @@ int main(void)
 	drv_init();
 	setvbuf(stdout, outbuf, _IOLBF, sizeof(outbuf));
 	tr_c = mpt_type_traits('c');
+	tr_d = mpt_type_traits('d');
 	/* first allocation fixes the granule; keep it out of the heap accounting */
 	{ MPT_STRUCT(buffer) *b = _mpt_buffer_alloc(1, 0); b->_vptr->unref(b); }
 	while (fgets(line, sizeof(line), stdin)) {
@@ -499,6 +503,13 @@ int main(void)
 			}
 		}
 #ifndef DRV_ELEM
+		else if (!strcmp(op, "vprep") && drv_nw == 4) {
+			/* mpt_values_prepare(arr, n): n >= 0 appends n zeroed doubles, n < 0 appends a copy of the last -n */
+			long n;
+			if (drv_w[3][0] == '-' && drv_w[3][1]) { if (drv_parse_nat(drv_w[3] + 1, &a) || a > 100000) BAD; n = -(long) a; }
+			else { if (drv_parse_nat(drv_w[3], &a) || a > 100000) BAD; n = (long) a; }
+			result_ptr(mpt_values_prepare(arr, n), h, "-");
+		}
 		else if (!strcmp(op, "binsert") && drv_nw == 5) {
 			/* private copy of the current size, then mpt_buffer_insert and the caller's copy */
 			if (opnd(drv_w[3], h, &a) || data_arg(drv_w[4], h, &dat, &dlen, &isnull)) BAD;
